@@ -319,3 +319,79 @@ def same_data(obs, exp):
     if obs is None or set(obs) != set(exp):
         return False
     return all(obs[k][1] == exp[k][1] and same_value(obs[k][0], exp[k][0]) for k in exp)
+
+
+# ----------------------------------------------------------------------------- base-environment histories (DipBase)
+
+SOURCE_NAMES = ("s1", "s2")
+
+
+def render_base_text(lines, scratch):
+    out, ind = [], ""
+    for ln in lines:
+        k = ln["k"]
+        if k == "unit":
+            out.append(f"{ind}$unit {ln['name']} = {ln['val']} m")
+        elif k == "source":
+            out.append(f"{ind}$source {ln['name']} = {os.path.join(scratch, 'src_' + ln['name'] + '.txt')}")
+        elif k == "node":
+            u = ln["unit"]
+            out.append(f"{ind}{ln['name']} float = {ln['val']}" + (f" [{u}]" if u not in ("", "m") else unit_sfx(u)))
+        elif k == "inj":
+            out.append(f"{ind}{ln['name']} float = {{?*}}")
+        elif k == "case":
+            out.append(f"@case {'true' if ln['val'] else 'false'}")
+            ind = "  "
+        elif k == "end":
+            out.append("@end")
+            ind = ""
+        else:
+            raise ValueError(k)
+    return "\n".join(out) + ("\n" if out else "")
+
+
+def parse_on(base, text, name, keep):
+    """DIP(base).parse() of text (DIP() when base is None).  -> ('ok', env) | ('rej', None)"""
+    from scinumtools.dip import DIP
+    speedup()
+    for s in SOURCE_NAMES:
+        m = "src_" + s + ".txt"
+        for part in text.split():
+            if part.endswith(m) and not os.path.exists(part):
+                os.makedirs(os.path.dirname(part), exist_ok=True)
+                with open(part, "w") as f:
+                    f.write("content of " + s + "\n")
+    try:
+        p = DIP(base, name=name) if base is not None else DIP(name=name)
+        keep.append(p)
+        if text:
+            p.add_string(text)
+        return "ok", p.parse()
+    except Exception:
+        return "rej", None
+
+
+def observe_env(env):
+    try:
+        nodes = env_data(env)
+    except Exception as ex:
+        nodes = {"#unreadable": [repr(ex)[:80], ""]}
+    units = {}
+    for k, v in env.units.items():
+        try:
+            units[k] = float(v["value"])
+        except Exception:
+            units[k] = repr(v)[:40]
+    return {"nodes": nodes, "units": units, "sources": sorted(k for k in env.sources.keys() if k in SOURCE_NAMES)}
+
+
+def expected_env(exp):
+    unit = lambda u: u if u in ("", "m") else f"[{u}]"
+    return {"nodes": {n["name"]: [n["val"], unit(n["unit"])] for n in exp["nodes"]},
+            "units": {f"[{u['name']}]": float(u["val"]) for u in exp["units"]},
+            "sources": sorted(s["name"] for s in exp["sources"])}
+
+
+def same_env(obs, exp):
+    return (same_data(obs["nodes"], exp["nodes"]) and obs["sources"] == exp["sources"]
+            and set(obs["units"]) == set(exp["units"]) and all(same_value(obs["units"][k], exp["units"][k]) for k in exp["units"]))
